@@ -15,9 +15,11 @@ CONSTANTS MaxLen,     \* maximal lane length
 
 VARIABLES mem0, vin, kind,   \* call-time buffer, input view, element kind
           mem, i, j, pc,     \* "Start" | "ScanI" | "ScanJ" | "Cmp" | "Cast" | "done"
-          vout
+          vout,
+          perm               \* ghost (history): perm[t] = original logical position of the element now at logical position t
 
-vars == <<mem0, vin, kind, mem, i, j, pc, vout>>
+vars == <<mem0, vin, kind, mem, i, j, pc, vout, perm>>
+SwapF(f, x, y) == [f EXCEPT ![x] = f[y], ![y] = f[x]]
 
 Strides == (-MaxStride..MaxStride) \ {0}
 
@@ -39,6 +41,7 @@ Init ==
           /\ vin = MkView(n, s, o)
     /\ kind \in Kinds
     /\ mem = mem0 /\ i = 0 /\ j = 0 /\ pc = "Start" /\ vout = [ptr |-> 0, len |-> 0, stride |-> 0]
+    /\ perm = [t \in 0..(vin.len - 1) |-> t]
 
 Nan(t) == IsMissing(VElem(mem, vin, t))
 
@@ -47,25 +50,25 @@ Start ==
     /\ pc = "Start"
     /\ IF vin.len = 0 THEN pc' = "Cast" /\ i' = 0 /\ j' = 0          \* Empty: slice ..0
        ELSE i' = 0 /\ j' = vin.len - 1 /\ pc' = "ScanI"
-    /\ UNCHANGED <<mem0, vin, kind, mem, vout>>
+    /\ UNCHANGED <<mem0, vin, kind, mem, vout, perm>>
 
 (* mod.rs:55-57 *)
 StepI ==
     /\ pc = "ScanI"
     /\ IF i <= j /\ ~Nan(i) THEN i' = i + 1 /\ pc' = "ScanI" ELSE i' = i /\ pc' = "ScanJ"
-    /\ UNCHANGED <<mem0, vin, kind, mem, j, vout>>
+    /\ UNCHANGED <<mem0, vin, kind, mem, j, vout, perm>>
 
 (* mod.rs:59-61 *)
 StepJ ==
     /\ pc = "ScanJ"
     /\ IF j > i /\ Nan(j) THEN j' = j - 1 /\ pc' = "ScanJ" ELSE j' = j /\ pc' = "Cmp"
-    /\ UNCHANGED <<mem0, vin, kind, mem, i, vout>>
+    /\ UNCHANGED <<mem0, vin, kind, mem, i, vout, perm>>
 
 (* mod.rs:63-69 *)
 Cmp ==
     /\ pc = "Cmp"
-    /\ IF i >= j THEN pc' = "Cast" /\ UNCHANGED <<mem, i, j>>
-       ELSE /\ mem' = Swap(mem, VAddr(vin, i), VAddr(vin, j))
+    /\ IF i >= j THEN pc' = "Cast" /\ UNCHANGED <<mem, i, j, perm>>
+       ELSE /\ mem' = Swap(mem, VAddr(vin, i), VAddr(vin, j)) /\ perm' = SwapF(perm, i, j)
             /\ i' = i + 1 /\ j' = j - 1 /\ pc' = "ScanI"
     /\ UNCHANGED <<mem0, vin, kind, vout>>
 
@@ -74,7 +77,7 @@ Cast ==
     /\ pc = "Cast"
     /\ vout' = ReturnedView(kind, [vin EXCEPT !.len = i])
     /\ pc' = "done"
-    /\ UNCHANGED <<mem0, vin, kind, mem, i, j>>
+    /\ UNCHANGED <<mem0, vin, kind, mem, i, j, perm>>
 
 Next == Start \/ StepI \/ StepJ \/ Cmp \/ Cast
 Spec == Init /\ [][Next]_vars /\ WF_vars(Next)
